@@ -13,12 +13,14 @@ SAME-NAME-FORWARD a parameter handed on to a callee's parameter of the same name
                  normalised on one side of a pair only                                                                   sa/forward.py
 ERROR-SENTINEL   a find() result used as a value without being told apart from -1                                       sa/sentinel.py
 GENERATOR-ONCE   a generator expression that is kept (attribute, constructor argument, returned) instead of consumed      sa/genonce.py
+LOOP-LEFTOVER    a table filled from a loop's per-iteration values after the loop has ended (a dedented line)              sa/loopvar.py
 STRIP-SET        strip / lstrip / rstrip given a multi-character text as if it were a suffix / prefix                      sa/sentinel.py
 """
 from .alias import alias_obligation
 from .falsy import falsy_default_obligation
 from .genonce import generator_obligation
 from .forward import forward_obligation, same_name_obligation
+from .loopvar import leftover_obligation
 from .identity import identity_obligation
 from .mutdefault import mutable_default_obligation
 from .sentinel import sentinel_obligation, strip_set_obligation
@@ -26,7 +28,7 @@ from .sentinel import sentinel_obligation, strip_set_obligation
 KINDS = (("FALSY-DEFAULT", falsy_default_obligation), ("MUTABLE-DEFAULT", mutable_default_obligation), ("IDENTITY", identity_obligation),
          ("ALIAS", alias_obligation), ("CTOR-FORWARD", forward_obligation), ("SAME-NAME-FORWARD", same_name_obligation),
          ("ERROR-SENTINEL", sentinel_obligation), ("STRIP-SET", strip_set_obligation),
-         ("GENERATOR-ONCE", generator_obligation))
+         ("GENERATOR-ONCE", generator_obligation), ("LOOP-LEFTOVER", leftover_obligation))
 
 
 def shared_obligations(ctx, modnames, what):
